@@ -176,6 +176,59 @@ class SymStr:
             return False
         return SymStr(self.chars[: len(p)]) == p
 
+    def __contains__(self, needle):
+        """substring test (concrete-length needle); forks through SymBool where characters are symbolic"""
+        n = SymStr.of(needle)
+        if len(n) == 0:
+            return True
+        for i in range(len(self) - len(n) + 1):
+            r = SymStr(self.chars[i : i + len(n)]) == n
+            if r is True or (r is not False and bool(r)):
+                return True
+        return False
+
+    # str.isspace() / str.splitlines() character sets (CPython unicodeobject: _PyUnicode_IsWhitespace / IsLinebreak)
+    _SPACE = [(9, 13), (28, 32), (0x85, 0x85), (0xA0, 0xA0), (0x1680, 0x1680), (0x2000, 0x200A), (0x2028, 0x2029), (0x202F, 0x202F), (0x205F, 0x205F), (0x3000, 0x3000)]
+    _LINEBREAK = [(10, 13), (28, 30), (0x85, 0x85), (0x2028, 0x2029)]
+
+    @staticmethod
+    def _in_ranges(c, ranges) -> bool:
+        if not isinstance(c, SymNum):
+            return any(lo <= c <= hi for lo, hi in ranges)
+        return bool(SymBool(z3.Or(*[z3.And(c.t >= lo, c.t <= hi) for lo, hi in ranges])))
+
+    def strip(self, chars=None):
+        if chars is not None:
+            raise core.HarnessError("strip(chars) on a symbolic string")
+        a, b = 0, len(self.chars)
+        while a < b and self._in_ranges(self.chars[a], self._SPACE):
+            a += 1
+        while b > a and self._in_ranges(self.chars[b - 1], self._SPACE):
+            b -= 1
+        return SymStr(self.chars[a:b])
+
+    def splitlines(self, keepends=False):
+        out, cur, i = [], [], 0
+        cs = self.chars
+        while i < len(cs):
+            c = cs[i]
+            if self._in_ranges(c, self._LINEBREAK):
+                end = [c]
+                if i + 1 < len(cs) and (SymStr([c]) == "\r") is True and (SymStr([cs[i + 1]]) == "\n") is True:
+                    end.append(cs[i + 1])
+                    i += 1
+                elif i + 1 < len(cs) and bool(SymStr([c]) == "\r") and bool(SymStr([cs[i + 1]]) == "\n"):
+                    end.append(cs[i + 1])
+                    i += 1
+                out.append(SymStr(cur + (end if keepends else [])))
+                cur = []
+            else:
+                cur.append(c)
+            i += 1
+        if cur:
+            out.append(SymStr(cur))
+        return out
+
     def encode(self, *a, **k):
         return SymBytes(self)
 
@@ -323,6 +376,8 @@ class Ops:
         return a % b
 
     def call(self, f, *a, **k):
+        if f is str and len(a) == 1 and isinstance(getattr(a[0], "symstr", None), SymStr):
+            return a[0].symstr  # a stub object (e.g. a path) that carries a symbolic string
         if _any_sym(a):
             if f is chr:
                 return SymStr([a[0]])
@@ -409,6 +464,7 @@ def load_instrumented(module_name: str, rebind: Optional[dict] = None):
     mod.__file__ = path
     mod.__package__ = orig.__package__
     mod.__dict__["__symx__"] = Ops()
+    sys.modules[mod.__name__] = mod  # dataclasses look their module up by name
     exec(code, mod.__dict__)
     for k, v in (rebind or {}).items():
         setattr(mod, k, v)
